@@ -434,8 +434,35 @@ class C15(CoreCheck):
     def nontrivial(self, case, mo):
         return (";X" in case or not case.startswith("Bet")) and bool(re.search(r"\| C[ftker]", mo or ""))
 
+    def kernel_smoke(self, ctx):
+        """the virtual kernel's assumptions about Linux, probed on the real kernel (harness/vk_smoke.c)"""
+        import subprocess
+        d = os.path.join(ctx.work, "smoke")
+        os.makedirs(d, exist_ok=True)
+        src = os.path.join(vlib.VERIF, "harness", "vk_smoke.c")
+        r1 = vlib.sh(["gcc", "-O1", "-D_GNU_SOURCE", src, "-o", os.path.join(d, "real")], timeout=120)
+        r2 = vlib.sh(["gcc", "-O1", "-D_GNU_SOURCE", "-DVK_SMOKE_VIRTUAL", "-I" + os.path.join(vlib.VERIF, "harness"), src,
+                      os.path.join(vlib.VERIF, "harness", "vk.c"), "-o", os.path.join(d, "virt")] +
+                     ["-Wl,--wrap=" + w for w in vlib.VK_WRAPS], timeout=120)
+        if r1[0] != 0 or r2[0] != 0:
+            return "vk_smoke does not build: " + (r1[1] + r2[1])[-400:]
+        a = vlib.sh([os.path.join(d, "real")], timeout=60)[1]
+        b = vlib.sh([os.path.join(d, "virt")], timeout=60)[1]
+        self.smoke_probes = len(a.splitlines())
+        if a != b:
+            la, lb = a.splitlines(), b.splitlines()
+            for x, y in zip(la, lb):
+                if x != y:
+                    return "virtual kernel disagrees with Linux: real `%s` vs virtual `%s`" % (x, y)
+            return "virtual kernel disagrees with Linux (output length)"
+        return None
+
     def correspond(self, ctx, cases):
         st = CoreCheck.correspond(self, ctx, cases)
+        if len(cases) > 10:
+            why = self.kernel_smoke(ctx)
+            if why:
+                st["div"].append((0, why))
         # cross-method agreement on the implementation traces
         for start in getattr(self, "groups", []):
             if start + 4 > len(cases):
